@@ -77,6 +77,7 @@ class Key:
         self._debug_pake_stashed = False  # for tests
 
     def wire(self, boss, mailbox, receive):
+        self._B = _interfaces.IBoss(boss)
         self._SK.wire(boss, mailbox, receive)
 
     @m.state(initial=True)
@@ -119,7 +120,14 @@ class Key:
     @m.output()
     def deliver_code_and_stashed_pake(self, code):
         self._SK.got_code(code)
-        self._SK.got_pake(self._pake)
+        try:
+            self._SK.got_pake(self._pake)
+        except Exception as e:
+            # We are inside the application's set_code()/choose_words()
+            # call here, not inside the handling of a server message
+            # (where RendezvousConnector reports to the Boss whatever a
+            # malformed PAKE makes us raise): do the same
+            self._B.error(e)
 
     S00.upon(got_code, enter=S10, outputs=[deliver_code])
     S10.upon(got_pake, enter=S11, outputs=[deliver_pake])
